@@ -11,6 +11,7 @@ import (
 )
 
 type Clause struct {
+	Local bool // proved at returns, not exported to callers
 	Kind  string
 	Label string
 	Text  string
@@ -119,7 +120,7 @@ var clauseKeywords = map[string]bool{
 	"trusted": true, "bounded": true, "at": true, "frame": true, "inline": true, "pure": true,
 	"balanced": true, "order": true, "noescape": true, "nowrite": true, "fresh": true, "reveal": true,
 	"assume": true, "panics": true, "params": true, "ghost": true, "effects": true, "transfers": true,
-	"havoc": true, "calls": true, "nocall": true, "returns": true, "abstract": true, "note": true,
+	"havoc": true, "calls": true, "nocall": true, "returns": true, "abstract": true, "note": true, "guarantees": true,
 }
 
 var labelRe = regexp.MustCompile(`^\[([A-Za-z0-9_\-./<>=]+)\]\s*`)
@@ -391,7 +392,7 @@ func parseClauses(c *Contract, file string, body []rawLine) error {
 				cla.Text = t
 			}
 			switch x.kw {
-			case "requires", "ensures", "invariant", "decreases", "assert", "assume":
+			case "requires", "ensures", "invariant", "decreases", "assert", "assume", "guarantees":
 				e, err := parseSpec(t)
 				if err != nil {
 					return nil, fmt.Errorf("line %d: %v", x.line, err)
@@ -410,7 +411,11 @@ func parseClauses(c *Contract, file string, body []rawLine) error {
 		case "params":
 			ps, err := parseParams(x.text)
 			if err != nil {
-				return err
+				// names only: types come from the Go signature
+				ps = nil
+				for _, n := range strings.Split(x.text, ",") {
+					ps = append(ps, Param{Name: strings.TrimSpace(n)})
+				}
 			}
 			c.Params = ps
 		case "loop":
@@ -433,11 +438,12 @@ func parseClauses(c *Contract, file string, body []rawLine) error {
 				return err
 			}
 			c.Requires = append(c.Requires, cla)
-		case "ensures":
+		case "ensures", "guarantees":
 			cla, err := mk()
 			if err != nil {
 				return err
 			}
+			cla.Local = x.kw == "guarantees"
 			c.Ensures = append(c.Ensures, cla)
 		case "modifies":
 			cla, _ := mk()
